@@ -356,7 +356,11 @@ def check_history(ctx, case) -> None:
 @st.composite
 def cases(draw, maxlen=25):
     lp = draw(st.integers(0, 4)) == 0
-    spec = draw(gen.engine(activation=gen.activation_general(), functions=True))
+    nongeneral = draw(st.integers(0, 4)) == 0
+    other = st.sampled_from([{"cls": "First", "rules": 1, "threshold": 0.0}, {"cls": "Last", "rules": 2, "threshold": 0.25},
+                             {"cls": "Highest", "rules": 1}, {"cls": "Lowest", "rules": 2}, {"cls": "Proportional"},
+                             {"cls": "Threshold", "comparator": ">", "threshold": 0.25}])
+    spec = draw(gen.engine(activation=other if nongeneral else gen.activation_general(), functions=True))
     for v in spec["outputs"]:
         if not lp:
             v["lock_previous"] = False
@@ -391,6 +395,8 @@ def cases(draw, maxlen=25):
         w = draw(which)
         ops = ops[: maxlen - 6] + [["set", "row", draw(row)], ["process"], ["flip", w], ["restart"], ["flip", w], ["process"]]
     _ = nb, no, ni
+    if nongeneral:  # the other activation methods take scalar inputs only
+        ops = [["set", "row", o[2][0]] if o[0] == "set" and o[1] == "batch" else o for o in ops]
     return {"spec": spec, "ops": ops, "probe": draw(row)}
 
 
